@@ -729,6 +729,7 @@ func (w *World) Reopen() Res {
 // ColdObserve reconstructs every root in a brand-new storage over a copy of the ledger,
 // using nothing but the registers, without touching the live storage.
 func (w *World) ColdObserve() []RootObs {
+	w.ColdReach, w.ColdBad = []int{}, 1 // until the observation completes: a root that cannot even be opened counts as unresolved
 	cw := &World{T: w.T, Th: w.Th, Ledger: w.Ledger.Clone(), H: map[string]*Handle{}, canon: w.canon, Addr: w.Addr, RawIDs: w.RawIDs}
 	cw.St = newStorage(cw.Ledger)
 	for _, name := range w.Roots {
